@@ -3,6 +3,7 @@
 package auxpow
 
 import (
+	"bytes"
 	"encoding/binary"
 
 	"github.com/elastos/Elastos.ELA/common"
@@ -64,7 +65,11 @@ func ZZ_C10_commit() {
 	ap := zzC10proof(h, L, P, nonce, AuxPowChainID, 0)
 	nd.Assert(ap.Check(&h, AuxPowChainID), "proof_built_for_this_block_verifies")
 	nd.Reach("built")
-	switch nd.Choose("attack", 8) {
+	switch nd.Choose("attack", 10) {
+	case 9: // through the wire format
+		zzC10wire(L, P, nonce)
+	case 8: // a second marker
+		zzC10secondMarker(P, nonce)
 	case 6: // something between the marker and the root
 		bad := zzC10proofAt(h, L, P, nonce, GetExpectedIndex(nonce, AuxPowChainID, L), nd.Choose("fillerBytes", 3)+1)
 		nd.Assert(!bad.Check(&h, AuxPowChainID), "root_not_immediately_after_the_marker_is_rejected")
@@ -120,4 +125,69 @@ func ZZ_C10_commit() {
 		nd.Assert(!ap.Check(&h, AuxPowChainID), "changed_committed_root_is_rejected")
 	}
 	nd.Reach("attacked")
+}
+
+// zzC10secondMarker: the coinbase script must contain exactly one marker. A
+// proof with an empty aux branch commits to the block hash itself, so a block
+// hash whose (reversed) bytes contain the marker pattern — byte-aligned or
+// shifted by a nibble, at any of several positions — puts a second marker
+// inside the committed root; a marker may also follow the committed fields.
+// Every such proof is refused although everything else about it is right.
+func zzC10secondMarker(P int, nonce uint32) {
+	var h common.Uint256
+	for i := range h {
+		h[i] = byte(0x10 + i)
+	}
+	idx := GetExpectedIndex(nonce, AuxPowChainID, 0)
+	switch nd.Choose("secondMarkerPlace", 3) {
+	case 0: // byte-aligned inside the root (the script holds the hash as given to Check, reversed twice)
+		pos := nd.Choose("position", 29)
+		copy(h[pos:], pchMergedMiningHeader)
+	case 1: // shifted by a nibble inside the root: xf ab e6 d6 dx
+		pos := nd.Choose("position", 28)
+		m := pchMergedMiningHeader
+		h[pos] = h[pos]&0xf0 | m[0]>>4
+		h[pos+1] = m[0]<<4 | m[1]>>4
+		h[pos+2] = m[1]<<4 | m[2]>>4
+		h[pos+3] = m[2]<<4 | m[3]>>4
+		h[pos+4] = m[3]<<4 | h[pos+4]&0x0f
+	default: // after the committed size and nonce
+		bad := zzC10proofAt(h, 0, P, nonce, idx, 0)
+		in := bad.ParCoinbaseTx.TxIn[0]
+		in.SignatureScript = append(append([]byte{}, in.SignatureScript...), pchMergedMiningHeader...)
+		bad.ParBlockHeader.MerkleRoot = GetMerkleRoot(bad.ParCoinbaseTx.Hash(), bad.ParCoinBaseMerkle, bad.ParMerkleIndex)
+		nd.Assert(!bad.Check(&h, AuxPowChainID), "script_with_a_second_marker_is_rejected")
+		return
+	}
+	bad := zzC10proofAt(h, 0, P, nonce, idx, 0)
+	nd.Assert(!bad.Check(&h, AuxPowChainID), "script_with_a_second_marker_is_rejected")
+}
+
+// zzC10wire: the proof as a peer delivers it. The valid proof survives
+// Serialize -> Deserialize; a proof whose parent (or aux) merkle index is
+// 0xffffffff on the wire and whose parent header has an all-zero merkle root
+// — the values with which an index decoded as -1 would make GetMerkleRoot
+// return the zero hash without looking at the coinbase — is refused for this
+// block and for any other.
+func zzC10wire(L, P int, nonce uint32) {
+	h := common.Uint256{0x42, 0x01}
+	roundTrip := func(ap *AuxPow) *AuxPow {
+		buf := new(bytes.Buffer)
+		nd.Assert(ap.Serialize(buf) == nil, "proof_serializes")
+		out := &AuxPow{}
+		nd.Assert(out.Deserialize(bytes.NewReader(buf.Bytes())) == nil, "own_encoding_decodes")
+		return out
+	}
+	good := roundTrip(zzC10proof(h, L, P, nonce, AuxPowChainID, 0))
+	nd.Assert(good.Check(&h, AuxPowChainID), "proof_received_over_the_wire_verifies")
+	bad := zzC10proof(h, L, P, nonce, AuxPowChainID, 0)
+	if nd.Bool("auxIndexToo") {
+		bad.AuxMerkleIndex = 0xffffffff
+	}
+	bad.ParMerkleIndex = 0xffffffff
+	bad.ParBlockHeader.MerkleRoot = common.Uint256{}
+	got := roundTrip(bad)
+	nd.Assert(!got.Check(&h, AuxPowChainID), "coinbase_not_under_parent_root_is_rejected_on_the_wire")
+	other := common.Uint256{0x99}
+	nd.Assert(!got.Check(&other, AuxPowChainID), "coinbase_not_under_parent_root_is_rejected_on_the_wire")
 }
